@@ -34,7 +34,7 @@ COMPONENTS = {"real": ["smpl_extract.actions.determine_image_type, alcohol/mdf, 
               "stub": ["SimFile for raw/2352/MDX; virtual FS for the two cue arms", "stdout captured", "sandboxed output"]}
 ASSUMPTIONS = ["the 2352 encoding pads the last sector's user data; MDX 'eof' = header + data length",
                "purely differential - the raw arm itself is validated by C01/C02"]
-EXPECTED_PROBES = ["akai", "roland", "size_not_multiple_of_2048", "mdf_partial_sector_reads", "audio_cue_is_cdda", "ls_leaf_compared", "trimmed_dump", "partial_raw_sector_at_end", "cue_header_lines", "mixed_mode_cue"]
+EXPECTED_PROBES = ["akai", "roland", "size_not_multiple_of_2048", "mdf_partial_sector_reads", "audio_cue_is_cdda", "ls_leaf_compared", "trimmed_dump", "partial_raw_sector_at_end", "cue_header_lines", "mixed_mode_cue", "bin_in_subdirectory", "keywords_not_upper_case"]
 SHRINK = {"max_attempts": 60, "max_seconds": 120.0, "simple_values": {"policy": ["contiguous"]}}
 
 
@@ -46,6 +46,11 @@ def gen(rng: random.Random, tier: str, index: int) -> dict:
         style["header"] = rng.sample(['REM GENRE Sampler', 'REM DATE 1994', 'CATALOG 0000000000000', 'PERFORMER "Roland"', 'TITLE "Sample CD"', '', '   '], rng.randint(1, 3))
     if rng.random() < 0.35:
         style["audio_tracks"] = rng.randint(1, 2)
+    if rng.random() < 0.3:
+        # the FILE entry is a path relative to the cue sheet
+        style["bin_name"] = rng.choice(["D.BIN", "bins/d.img", "rips/cd 1/d.bin", "my disc (1).bin"])
+    if rng.random() < 0.25:
+        style["kw_case"] = rng.choice(["lower", "title"])
     sc["cue_style"] = style
     return sc
 
@@ -97,10 +102,12 @@ def _run_arm(arm: str, img: bytes, paths, res: RunResult, raw_tail: int = 0, cue
     def cue(mode: str) -> bytes:
         # a cue sheet may carry header lines before FILE and audio tracks after its data track (a mixed-mode disc)
         text = "".join(l + "\n" for l in style.get("header", []))
-        text += K.data_cue("d.bin", mode)
+        text += K.data_cue(bin_name, mode, style.get("kw_case"))
         for i in range(style.get("audio_tracks", 0)):
             text += "  TRACK %02d AUDIO\n    INDEX 01 %02d:00:00\n" % (i + 2, 50 + i)
         return text.encode()
+
+    bin_name = style.get("bin_name", "d.bin")
 
     if arm == "raw":
         target = sf = SimFile(img)
@@ -118,10 +125,10 @@ def _run_arm(arm: str, img: bytes, paths, res: RunResult, raw_tail: int = 0, cue
         vfs = VirtualFS({"/vfs/d.mdx": K.to_mdx(img)})
         target, sf = "/vfs/d.mdx", None
     elif arm == "cue_raw":
-        vfs = VirtualFS({"/vfs/d.cue": cue("MODE1/2048"), "/vfs/d.bin": img})
+        vfs = VirtualFS({"/vfs/d.cue": cue("MODE1/2048"), "/vfs/" + bin_name: img})
         target, sf = "/vfs/d.cue", None
     else:
-        vfs = VirtualFS({"/vfs/d.cue": cue("MODE1/2352"), "/vfs/d.bin": K.to_2352(img) + bytes([0x5A]) * raw_tail})
+        vfs = VirtualFS({"/vfs/d.cue": cue("MODE1/2352"), "/vfs/" + bin_name: K.to_2352(img) + bytes([0x5A]) * raw_tail})
         target, sf = "/vfs/d.cue", None
     out = {"ls": {}, "kind": None}
     import contextlib
@@ -185,6 +192,10 @@ def run(sc: dict) -> RunResult:
         res.probes["partial_raw_sector_at_end"] += 1
     if (sc.get("cue_style") or {}).get("header"):
         res.probes["cue_header_lines"] += 1
+    if "/" in (sc.get("cue_style") or {}).get("bin_name", ""):
+        res.probes["bin_in_subdirectory"] += 1
+    if (sc.get("cue_style") or {}).get("kw_case"):
+        res.probes["keywords_not_upper_case"] += 1
     if (sc.get("cue_style") or {}).get("audio_tracks"):
         res.probes["mixed_mode_cue"] += 1
     base = arms.get("raw")
@@ -206,8 +217,10 @@ def run(sc: dict) -> RunResult:
                     arm, o["export"][3], base["export"][3], o["export"][2], base["export"][2], o["export"][0] == base["export"][0]), arm=arm)
     # an all-audio cue over the very same bytes is CDDA, not a sampler image
     if sc.get("audio_cue", True):
-        cue = 'FILE "d.bin" BINARY\n  TRACK 01 AUDIO\n    INDEX 01 00:00:00\n  TRACK 02 AUDIO\n    INDEX 01 00:00:02\n'
-        vfs = VirtualFS({"/vfs/a.cue": cue.encode(), "/vfs/d.bin": img[:4 * 2352 + 8]})
+        st = sc.get("cue_style") or {}
+        bn = st.get("bin_name", "d.bin")
+        cue = K.data_cue(bn, "AUDIO", st.get("kw_case")) + '  TRACK 02 AUDIO\n    INDEX 01 00:00:02\n'
+        vfs = VirtualFS({"/vfs/a.cue": cue.encode(), "/vfs/" + bn: img[:4 * 2352 + 8]})
         with vfs.installed(), StepClock(5_000_000) as clk:
             image, r0 = tool.open_image("/vfs/a.cue")
         res.steps += clk.steps
